@@ -299,7 +299,7 @@ def run(ctx):
                            "expand_sound_partial", "expand_sound_counterexample", "resolved_tree_meaning", "emitter_not_compatible",
                            "sql_print_parse_partial", "sql_print_parse_counterexample", "sql_tree_meaning", "sql_div_i_meaning_partial",
                            "sql_div_i_counterexample", "survives_counterexample_comparison_chain", "survives_counterexample_null_folding",
-                           "sql_print_counterexample_double_minus"])
+                           "sql_print_double_minus", "survives_double_minus", "neg_under_neg_parenthesised"])
     ctx.rule = ("a case = (expression tree, dialect in {sqlite, generic}); trees: every (parent, child, side) triple of the 17 binary and 3 unary "
                 "operators at depth 2 (exhaustive), each again under one more level (quick: one rotating context per triple; thorough: all "
                 "contexts), literal-folding cases, random trees of depth <= 6 with case / in / calls / literal and null leaves; compared: RQ tree, "
